@@ -12,7 +12,16 @@ RULE = ("random context-free grammars restricted to useful symbols (the library'
         "length <=4, on proper prefixes and one-symbol extensions of members: tree exactly for members (validated by "
         "the tree checker and compared with the reference LL(1) parse), NotParsableException otherwise. Non-trivial: "
         ">=2 productions, one with a body of length >=2.")
-THEOREMS = []
+LEVEL = "proof"
+THEOREMS = ["Pfl.CFG.mem_firstSets_iff",
+            "Pfl.CFG.mem_followSets_iff",
+            "Pfl.CFG.mem_followSets_iff_counterexample",
+            "Pfl.CFG.llParse_valid",
+            "Pfl.CFG.treeValid_sound",
+            "Pfl.CFG.cfgMem_iff",
+            "Pfl.CFG.mem_nullable_iff",
+            "Pfl.CFG.mem_generating_iff",
+            "Pfl.CFG.mem_reachable_iff"]
 
 
 def generate(rng, tier):
